@@ -7,7 +7,9 @@
 package c17
 
 import (
+	"flag"
 	"fmt"
+	"io"
 	"os"
 	"path/filepath"
 	"strings"
@@ -28,11 +30,12 @@ const rule = "case = (root form, import path, route); paths enumerated exhaustiv
 
 // Case is one import attempt.
 type Case struct {
-	Root      string `json:"root"` // as given to FileImportLocator (relative to the harness cwd or $BASE-absolute)
-	Path      string `json:"path"`
-	ViaImport bool   `json:"via_import"` // through `import "<path>" as x` instead of Resolve
-	Pre       []string `json:"pre,omitempty"` // paths resolved on the SAME locator first (their results are judged like every other); whatever they leave behind in the locator must not open the root
-	ViaCLI    bool   `json:"via_cli,omitempty"` // the locator is the one cli/tool's interpreter configures for -dir <root> (CreateRuntimeProvider)
+	Root      string   `json:"root"` // as given to FileImportLocator (relative to the harness cwd or $BASE-absolute)
+	Path      string   `json:"path"`
+	ViaImport bool     `json:"via_import"`         // through `import "<path>" as x` instead of Resolve
+	Pre       []string `json:"pre,omitempty"`      // paths resolved on the SAME locator first (their results are judged like every other); whatever they leave behind in the locator must not open the root
+	ViaArgs   bool     `json:"via_args,omitempty"` // like ViaCLI, but the root arrives as -dir <root> on a parsed command line which also names an entry file outside the root (ParseArgs)
+	ViaCLI    bool     `json:"via_cli,omitempty"`  // the locator is the one cli/tool's interpreter configures for -dir <root> (CreateRuntimeProvider)
 }
 
 var (
@@ -45,7 +48,7 @@ var segs = []string{"f", "r", ".", "..", "", "r x", "x.y"}
 // root forms; $P is replaced by the absolute cwd
 // (r/lnk is a symbolic link with the RELATIVE target "r", i.e. the directory r/r: the statement is about the lexical
 // root, so for a root which is itself a link "inside" is judged against the directory the link names)
-var roots = []string{"$P/r", "$P/r/", "r", "r/", "./r", ".", "r/r", "r/r/..", "r/../r", "../l6/r", "r//r", "$P/r/../r x", "$P/r/lnk", "r/lnk"}
+var roots = []string{"$P/r", "$P/r/", "r", "r/", "./r", ".", "r/r", "r/r/..", "r/../r", "../l6/r", "r//r", "$P/r/../r x", "$P/r/lnk", "r/lnk", "$P"}
 
 const prefix = "v := \""
 
@@ -138,10 +141,22 @@ func runCase(c Case) *hx.Failure {
 	rootArg := strings.ReplaceAll(c.Root, "$P", cwd)
 	ar := absRoot(c.Root)
 	var il util.ECALImportLocator = &util.FileImportLocator{Root: rootArg}
-	if c.ViaCLI {
+	if c.ViaCLI || c.ViaArgs {
 		interp := tool.NewCLIInterpreter()
-		dir, none, lvl := rootArg, "", "Error"
-		interp.Dir, interp.LogFile, interp.LogLevel = &dir, &none, &lvl
+		if c.ViaArgs {
+			flag.CommandLine = flag.NewFlagSet("c17", flag.ContinueOnError)
+			flag.CommandLine.SetOutput(io.Discard)
+			restore := tool.VerifSetIO([]string{"ecal", "run", "-dir", rootArg, "-loglevel", "Error", "../x.y"}, func(int) {}, io.Discard, nil)
+			f := hx.Guard(func() { interp.ParseArgs() })
+			restore()
+			if f != nil {
+				return f
+			}
+			hx.E.Class("route.cli-parsed-command-line", 1)
+		} else {
+			dir, none, lvl := rootArg, "", "Error"
+			interp.Dir, interp.LogFile, interp.LogLevel = &dir, &none, &lvl
+		}
 		if f := hx.Guard(func() {
 			if err := interp.CreateRuntimeProvider("c17"); err != nil {
 				panic(err)
@@ -204,7 +219,7 @@ func runCase(c Case) *hx.Failure {
 			nontrivial = true
 		}
 	}
-	key := fmt.Sprintf("%s|%s|%v|%v|%q", c.Root, c.Path, c.ViaImport, c.ViaCLI, c.Pre)
+	key := fmt.Sprintf("%s|%s|%v|%v|%v|%q", c.Root, c.Path, c.ViaImport, c.ViaCLI, c.ViaArgs, c.Pre)
 	if c.ViaCLI {
 		hx.E.Class("route.cli-configured-locator", 1)
 	}
@@ -297,6 +312,11 @@ func TestExhaustive(t *testing.T) {
 						return false
 					}
 				}
+				if (len(p)+ri)%11 == 0 || (len(idx) <= 2 && r == "$P") {
+					if !yield(Case{Root: r, Path: p, ViaArgs: true}) {
+						return false
+					}
+				}
 			}
 			if len(idx) == n {
 				return true
@@ -345,7 +365,7 @@ func TestProp(t *testing.T) {
 			}
 		}
 		via := rapid.IntRange(0, 5).Draw(rt, "via")
-		c := Case{Root: root, Path: strings.Join(parts, "/"), ViaImport: via == 0, ViaCLI: via == 1}
+		c := Case{Root: root, Path: strings.Join(parts, "/"), ViaImport: via == 0, ViaCLI: via == 1, ViaArgs: via == 2}
 		if rapid.IntRange(0, 2).Draw(rt, "pre") == 0 {
 			c.Pre = rapid.SampledFrom(preLists).Draw(rt, "prelist")
 		}
